@@ -78,12 +78,14 @@ func H02g_EmptyPoolTrustsNothing() {
 func H02e_4blocks()          { h02(4, 1) }
 
 // H02h: histories. After a quote was accepted under one pool, the same quote presented with
-// fresh options and ANOTHER pool is judged against that other pool.
+// ANOTHER pool - through fresh options, or through the SAME options value whose TrustedRoots the
+// caller replaced - is judged against that other pool.
 func H02h_SecondVerificationOtherRoots() {
 	w := mkPKI(1, nil)
 	quote := mkQuote(w, 0)
 	now := symTimeSet("t")
-	if TdxQuote(quote, &Options{TrustedRoots: w.pool, Now: now}) != nil {
+	first := &Options{TrustedRoots: w.pool, Now: now}
+	if TdxQuote(quote, first) != nil {
 		return
 	}
 	vp.Reach("first-accepted", true)
@@ -91,7 +93,12 @@ func H02h_SecondVerificationOtherRoots() {
 	pool2 := m_NewCertPool()
 	m_AddCert(pool2, other)
 	now2 := symTimeSet("t2")
-	err := TdxQuote(quote, &Options{TrustedRoots: pool2, Now: now2})
+	second := &Options{TrustedRoots: pool2, Now: now2}
+	if vp.Choose("sameOptionsValue", 2) == 1 {
+		first.TrustedRoots, first.Now = pool2, now2
+		second = first
+	}
+	err := TdxQuote(quote, second)
 	vp.Reach("second-rejected", err != nil)
 	vp.Assert("second-verification-is-anchored-in-its-own-pool", vp.Implies(err == nil,
 		verifyModel(w.leaf, []*x509.Certificate{other}, []*x509.Certificate{w.inter}, now2.PckCertChain)))
